@@ -33,9 +33,9 @@ TRUSTED = ['pbt/fakezk.py', 'pbt/mastersim.py']
 BUDGET = {'quick': 3200, 'thorough': 128000}
 
 PROFILE = {
-    'weights': {'badparent': 2, 'rmbucket': 1, 'rmbucketrestart': 2, 'restart': 8, 'reboot': 2, 'down': 3, 'up': 2, 'idg': 2,
+    'weights': {'rmrestart': 4, 'badparent': 2, 'rmbucket': 1, 'rmbucketrestart': 2, 'restart': 8, 'reboot': 2, 'down': 3, 'up': 2, 'idg': 2,
                 'cycle': 8, 'app': 12, 'state': 5, 'downseq': 2},
-    'force': ['restart', 'state'],
+    'force': ['restart', 'state', 'rmrestart'],
     'pre': (4, 12),
     'min_servers': 2,
     'max_parts': 1,
@@ -72,7 +72,12 @@ def execute(case, stats):
             return
         stored = seen['stored']
         master = sim.master
-        clean = not sim.dirty
+        # instances unscheduled since the last quiescent cycle leave stale
+        # records behind; that says nothing about the other records, which
+        # must still be restored (the stale ones are skipped below)
+        clean = not (sim.dirty_kinds - {'rm', 'finish', 'rmlast'})
+        if sim.dirty and clean:
+            stats.count('restarts_after_unschedule_only')
         stats.count('restarts_checked')
         if clean:
             stats.count('restarts_clean')
@@ -124,6 +129,9 @@ def execute(case, stats):
                 stats.count('entries_server_no_longer_offering')
                 continue
             if not clean:
+                continue
+            if sim.dirty and not sim.admin.exists(z.path.scheduled(inst)):
+                stats.count('entries_of_unscheduled_instances')
                 continue
             data = data or {}
             app = master.cell.apps.get(inst)
